@@ -8,6 +8,7 @@ spec: Emboss/Spec/Text.lean; helper lemmas: Emboss/Lemmas/Text*.lean.
 import Emboss.Lemmas.TextIntWrite
 import Emboss.Lemmas.TextWrite
 import Emboss.Lemmas.TextStruct
+import Emboss.Model.TextRead
 namespace Emboss.Text
 open Spec Emboss.Deps
 
@@ -217,5 +218,28 @@ theorem C06_emission_after_dependencies (deps : DepFn) (params order l1 l2 : Lis
   have hcons : f :: l2 = [f] ++ l2 := rfl
   simp only [textNames, writeClauses]
   rw [hcons, List.filter_append, List.filter_append, List.filter_append, List.filter_append]
+
+/-! ## The array reader refuses the multi-line writer's own output (open finding) -/
+
+def exArrShape : RShape := .struct (.cons "xs".toList (.arr 2 (.scalar (.int .u8 0 255))) .nil)
+def exArrVal : TVal :=
+  .struct (.cons "xs".toList false
+    (.arr true (.cons (.scalar (.int .u8 1)) (.cons (.scalar (.int .u8 2)) .nil))) .nil)
+def exArrML : Opts := ⟨true, false, .b10, false, "  ".toList, []⟩
+def exArrSL : Opts := ⟨false, false, .b10, false, [], []⟩
+
+/-- `struct Foo: 0 [+2] UInt:8[2] xs`, buffer 01 02: the multi-line text
+`{\n  xs: {\n    [0]: 1\n    [1]: 2\n  }\n}` is rejected by the reader model
+(`ReadArrayFromTextStream` wants `,` or `}` after an element; the multi-line writer puts a
+line break), although its tokens are read back exactly (`C06_tokens_roundtrip`); the
+single-line text is accepted and yields the values.  Replayed on the real code on every run
+(finding `multiline-array-elements-not-comma-separated`). -/
+theorem C06_array_multiline_counterexample :
+    exArrML.Rereadable ∧ exArrVal.WF ∧
+    updateFromText exArrShape (writeToString exArrML exArrVal) = .fail ∧
+    updateFromText exArrShape (writeToString exArrSL exArrVal) =
+      .ok [("xs[0]".toList, .int 1), ("xs[1]".toList, .int 2)] [] := by
+  refine ⟨⟨by decide, by decide, by decide⟩, ?_, by decide +kernel, by decide +kernel⟩
+  simp [exArrVal, TVal.WF, TFields.WF, TVals.WF, Scalar.WF, ValidWord, isDelim, isSpace, isPunct]
 
 end Emboss.Text
